@@ -90,7 +90,7 @@ var c02Table = map[string]triage{
 	`(x/dispute/keeper.Keeper).ExecuteVote # range:github.com/cosmos/cosmos-sdk/types.NewCoin(loopvar)`:                                                         {"accepted", "the burned amount is BurnAmount/2 truncated or BurnAmount; BurnAmount is a twentieth of a positive fee plus round fees (C13 BURN-HALF decides those forms)"},
 	`(x/dispute/keeper.Keeper).ExecuteVote # range:github.com/cosmos/cosmos-sdk/types.NewCoin(loopvar) [2]`:                                                     {"accepted", "as above (second outcome)"},
 	`(x/dispute/keeper.Keeper).ExecuteVote # range:github.com/cosmos/cosmos-sdk/types.NewCoin(loopvar) [3]`:                                                     {"accepted", "as above (third outcome)"},
-	`(x/dispute/keeper.Keeper).ReturnSlashedTokens # range:github.com/cosmos/cosmos-sdk/types.NewCoin(x/dispute/types.Dispute.SlashAmount)`:                     {"accepted", "SlashAmount is the dispute fee (a positive percentage of the reporter's stake), for a winning reporter plus the non-negative fees minus burn (C13 BURN-HALF)"},
+	`(x/dispute/keeper.Keeper).ReturnSlashedTokens # range:github.com/cosmos/cosmos-sdk/types.NewCoin(x/dispute/types.Dispute.SlashAmount)`:                     {"linked", "SlashAmount is the dispute fee, for a winning reporter plus (SlashAmount - BurnAmount); BurnAmount starts at a twentieth of it and a round's fee is added only while the sum stays within SlashAmount (BURN-BOUNDED; the 'accepted' this entry carried before was wrong: D27)"},
 	`(x/mint/keeper.Keeper).SendInflationaryRewards # range:github.com/cosmos/cosmos-sdk/types.NewCoin((cosmossdk.io/math.Int).Add())`:                          {"linked", "sum of the two parts of a non-negative provision (MINT-NO-OVERFLOW, OUTPUTS-POSITIVE)"},
 	`(x/mint/keeper.Keeper).SendInflationaryRewards # range:github.com/cosmos/cosmos-sdk/types.NewCoin((cosmossdk.io/math.Int).QuoRaw())`:                       {"linked", "only under quarter.IsPositive() (OUTPUTS-POSITIVE)"},
 	`(x/mint/keeper.Keeper).SendInflationaryRewards # range:github.com/cosmos/cosmos-sdk/types.NewCoin((cosmossdk.io/math.Int).Sub())`:                          {"linked", "only under threequarters.IsPositive() (OUTPUTS-POSITIVE)"},
@@ -162,6 +162,67 @@ func c02Links(r *Result) {
 			r.fn(name)
 		}
 		return f
+	}
+
+	// BURN-BOUNDED: the amounts ExecuteVote derives from SlashAmount - BurnAmount stay non-negative because every writer of
+	// BurnAmount keeps it within SlashAmount: the first round stores a twentieth of the fee, a later round adds its fee only
+	// on paths where BurnAmount + fee > SlashAmount was found false
+	{
+		writers, okAll := 0, true
+		var where token.Pos
+		for _, fn := range P.RepoFuncs {
+			if !strings.HasPrefix(fnCanon(fn), "(x/dispute/keeper.") {
+				continue
+			}
+			tm := NewTermer()
+			var ps *PathStates
+			for _, b := range fn.Blocks {
+				for _, in := range b.Instrs {
+					st, ok := in.(*ssa.Store)
+					if !ok {
+						continue
+					}
+					fa, ok := st.Addr.(*ssa.FieldAddr)
+					if !ok || fieldName(fa.X.Type(), fa.Field) != "x/dispute/types.Dispute.BurnAmount" {
+						continue
+					}
+					writers++
+					v := tm.Of(st.Val)
+					// first round: SlashAmount/20 of the same record (through LegacyDec and TruncateInt)
+					if p := (&linEval{Atomise: func(t *Term) string {
+						if strings.HasPrefix(t.Op, "param:") || strings.HasPrefix(t.Op, "ext:") || strings.HasPrefix(t.Op, "field:") {
+							return "fee"
+						}
+						return ""
+					}}).Eval(v); p.plain() == "1/20 * fee^1" {
+						continue
+					}
+					// later round: old + fee under the bound
+					if v.Op == "call:(cosmossdk.io/math.Int).Add" && len(v.Args) == 2 && strings.HasSuffix(v.Args[0].Op, "Dispute.BurnAmount") || (v.Op == "call:(cosmossdk.io/math.Int).Add" && v.Args[0].Contains("Dispute.BurnAmount")) {
+						sum := v.String()
+						if ps == nil {
+							ps = AnalyzePaths(fn, []Atom{{Name: "overBound", Stable: true, Cond: func(rel *Term) (bool, bool) {
+								// sum > SlashAmount, normalised to SlashAmount < sum
+								if rel.Op == "<" && len(rel.Args) == 2 && rel.Args[1].String() == sum && strings.HasSuffix(rel.Args[0].Op, "Dispute.SlashAmount") {
+									return true, true
+								}
+								if rel.Op == "<=" && len(rel.Args) == 2 && rel.Args[0].String() == sum && strings.HasSuffix(rel.Args[1].Op, "Dispute.SlashAmount") {
+									return true, false
+								}
+								return false, false
+							}}})
+						}
+						if bad := ps.Require(st, func(val map[string]bool) bool { return !val["overBound"] }); len(bad) == 0 && len(ps.Matched["overBound"]) > 0 {
+							continue
+						}
+					}
+					okAll, where = false, st.Pos()
+					link(false, "BURN-BOUNDED", FuncName(fn)+" # BurnAmount is stored as fee/20, or as old + round fee only where that sum was found not to exceed SlashAmount", P.Pos(st.Pos()), "stored: "+clip(v.String(), 160))
+				}
+			}
+		}
+		_ = where
+		link(okAll && writers == 2, "BURN-BOUNDED", "x/dispute/keeper # the two writers of Dispute.BurnAmount keep it within SlashAmount", "-", fmt.Sprintf("%d writers", writers))
 	}
 
 	// OUTPUTS-POSITIVE: x/bank rejects an output without coins; the mint split only sends positive parts
